@@ -22,7 +22,7 @@ def fmt_dt(d):
 
 class ProcResult(object):
     __slots__ = ('pid', 'argv', 'exit', 'out', 'err', 'exc', 'exc_frame', 'trace', 'nops',
-                 'nmut', 'killed', 'clock', 'replies', 'prompted', 'stdin_read')
+                 'nmut', 'killed', 'clock', 'clock_seq', 'replies', 'prompted', 'stdin_read')
 
     def as_log(self):
         return [self.pid, self.argv, self.exit, self.out.decode('utf-8', 'backslashreplace'),
@@ -62,6 +62,7 @@ class Sim(object):
         K.reset(self.root, mounts=w.get('mounts', []), dirsalt=case.get('dirsalt', 0),
                 faults=case.get('faults', []), umask=case.get('umask', 0o022), devs=w.get('devs'))
         K.mount_order = w.get('mount_order')
+        K.unlisted = w.get('unlisted')
         for m in K.mounts:
             if not os.path.isdir(self.root + m) or os.path.islink(self.root + m):
                 raise HarnessError('mount point %r is not a directory in the world' % m)
@@ -70,11 +71,9 @@ class Sim(object):
         P.CLOCK.now = parse_dt(ck.get('start', '2024-01-01T12:00:00.000000'))
         self._clock_start = P.CLOCK.now
         P.CLOCK.tick = _dt.timedelta(microseconds=ck.get('tick_us', 137))
+        P.CLOCK.op_tick = _dt.timedelta(microseconds=ck['op_us']) if ck.get('op_us') else None
         P.CLOCK.readings = []
-        P.CLOCK.utcoffset = _dt.timedelta(seconds=ck.get('utcoffset_s', 0))
-        dst = ck.get('dst') or {}
-        P.CLOCK.has_dst = bool(dst.get('has'))
-        P.CLOCK.dst_on = bool(dst.get('has') and dst.get('on'))
+        P.CLOCK.configure(ck.get('utcoffset_s', 0), ck.get('dst'))
         P.CLOCK.nonlocal_reads = 0
         P.apply_zone()
         P.RANDOM.script = []
@@ -124,7 +123,8 @@ class Sim(object):
         r.nops = p.nops
         r.nmut = p.nmut
         r.killed = p.killed
-        r.clock = [v for (_pid, v) in P.CLOCK.readings[c0:]]
+        r.clock = [x[1] for x in P.CLOCK.readings[c0:]]
+        r.clock_seq = [(x[2], x[1]) for x in P.CLOCK.readings[c0:]]
         r.replies = list(getattr(p.stdio.stdin, 'replies', []))
         r.stdin_read = p.stdio.inb.tell() > 0 or bool(r.replies)
         self.log.append(r.as_log())
